@@ -1529,7 +1529,10 @@ theorem r1234_fl_closure_b (ρ σ : String → ℝ)
 The residual of this branch computes its flank width as `width/2 − (r3−r2)·sin α3 − …` (copied from `solve_r123`): the terms
 `sin(α3 − α4)` and `(r3+r4)·sin α4` of the constricted chain are missing, so `res = 0` does not give `NoStep`; on feasible
 inputs scipy does not converge and the constructor raises (observed by the harness; no groove class reaches the branch).
-The full statement is kept; only the constriction half is proved. -/
+The full statement is kept; only the constriction half is proved here.  `PyrollProps/C04Boundary.lean` settles it: the step
+at a root is exactly `tan(fa)·((r3+r4)·sin α4 + (r3−r2)·(sin(α3−α4) − sin α3))` (`r1234_fa_step_exact`), the branch closes iff
+that vanishes (`r1234_fa_noStep_iff`, `r1234_fa_closure_unconstricted`), and the full statement is refuted by a concrete
+environment (`r1234_fa_closure_full_false`). -/
 
 def r1234_fa_closure_full : Prop :=
   ∀ (ρ σ : String → ℝ), Link1234 r1234_fa_flank_angle r1234_fa_alpha3 r1234_fa_alpha4 ρ σ →
